@@ -15,14 +15,14 @@
 (*                                                                         *)
 (* Universe parameters: MinKeys..MaxKeys item keys (in total over the      *)
 (* operands of a case), value lists of length 0..MaxLen over NVals values  *)
-(* per key, either all such lists (Lists = "all") or one representative    *)
+(* per key (at most MaxEmpty of them empty), either all such lists (Lists = "all") or one representative    *)
 (* per renaming of the values within a key (Lists = "canon": sweep.py      *)
 (* never inspects a value); dims = None and every ordered set partition of *)
 (* the keys, singleton groups written "k" or ("k",); constants / derivers  *)
 (* / exclude per Opts.  Shard/NShards split the universe over processes.   *)
 (***************************************************************************)
 EXTENDS Sweep, Json
-CONSTANTS Mode, MinKeys, MaxKeys, MaxLen, NVals, Lists, Opts, NOps, Shard, NShards
+CONSTANTS Mode, MinKeys, MaxKeys, MaxLen, MaxEmpty, NVals, Lists, Opts, NOps, Shard, NShards
 VARIABLES case, out
 vars == <<case, out>>
 
@@ -39,7 +39,9 @@ Growth(f) == \A i \in DOMAIN f : f[i] <= 1 + Max({0} \cup {f[j] : j \in 1..(i - 
 AbsLists  == UNION {IF Lists = "all" THEN [1..m -> 1..NVals] ELSE {f \in [1..m -> 1..NVals] : Growth(f)} : m \in 0..MaxLen}
 (* the values of the key at pool position g are 10g+1, 10g+2, .. : no two keys share a value *)
 Conc(l, g) == [j \in DOMAIN l |-> 10 * g + l[j]]
-ItemDicts(off, n) == {[i \in 1..n |-> [k |-> KeyPool[off + i], v |-> Conc(f[i], off + i)]] : f \in [1..n -> AbsLists]}
+(* at most MaxEmpty keys have an empty list (an empty list anywhere makes the whole sweep empty) *)
+ItemDicts(off, n) == {[i \in 1..n |-> [k |-> KeyPool[off + i], v |-> Conc(f[i], off + i)]]
+                      : f \in {h \in [1..n -> AbsLists] : Cardinality({i \in 1..n : h[i] = <<>>}) <= MaxEmpty}}
 
 (* dims: None, or an ordered partition of the keys; inside a group the keys stand in item order *)
 RECURSIVE OrdParts(_)
@@ -75,6 +77,8 @@ ELast(items)  == <<[k |-> KL(items), v |-> LastOr(items, KL(items), 0)]>>
 O(c, d, e) == [consts |-> c, ders |-> d, excl |-> e]
 OptTriples(items, ix) ==
     IF items = <<>> \/ Opts = "none" THEN {O(<<>>, <<>>, <<>>)}
+    ELSE IF Opts = "two" THEN
+        {O(<<>>, <<>>, <<>>), O(CFresh(ix), DConst(items, ix), EFirst(items))}
     ELSE IF Opts = "few" THEN
         {O(<<>>, <<>>, <<>>), O(CFresh(ix), <<>>, <<>>), O(<<>>, DCopy(items, ix), <<>>), O(<<>>, <<>>, EFirst(items)),
          O(CFresh(ix), DConst(items, ix), ELast(items))}
@@ -85,17 +89,22 @@ OptTriples(items, ix) ==
          O(<<>>, <<>>, EFirst(items)), O(<<>>, <<>>, ELast(items)),
          O(CFresh(ix), DConst(items, ix), EFirst(items)), O(CFresh(ix), DChain(items, ix), ELast(items)),
          O(CShadow(items), DOver(items), EFirst(items))}
-    ELSE IF Opts = "ders" THEN           \* filtered_sweep is claimed without constants and exclude
+    ELSE IF Opts = "ders2" THEN          \* filtered_sweep is claimed without constants and exclude
+        {O(<<>>, <<>>, <<>>), O(<<>>, DChain(items, ix), <<>>)}
+    ELSE IF Opts = "ders" THEN
         {O(<<>>, d, <<>>) : d \in {<<>>, DCopy(items, ix), DPair(items, ix), DOver(items), DChain(items, ix)}}
     ELSE \* "full"
-        {O(c, d, e) : c \in {<<>>, CFresh(ix), CShadow(items)},
-                      d \in {<<>>, DCopy(items, ix), DPair(items, ix), DOver(items), DChain(items, ix), DConst(items, ix)},
-                      e \in {<<>>, EFirst(items), ELast(items)}}
-        \ {O(c, DConst(items, ix), e) : c \in {<<>>, CShadow(items)}, e \in {<<>>, EFirst(items), ELast(items)}}
+        ({O(c, d, e) : c \in {<<>>, CFresh(ix), CShadow(items)},
+                       d \in {<<>>, DCopy(items, ix), DPair(items, ix), DOver(items), DChain(items, ix), DConst(items, ix)},
+                       e \in {<<>>, EFirst(items), ELast(items)}}
+         \ {O(c, DConst(items, ix), e) : c \in {<<>>, CShadow(items)}, e \in {<<>>, EFirst(items), ELast(items)}})
 
 Mk(items, dims, sstr, o) == [items |-> items, dims |-> dims, sstr |-> sstr, consts |-> o.consts, ders |-> o.ders, excl |-> o.excl]
 
-Hash(items) == SumNat([i \in DOMAIN items |-> 7 * i + Len(items[i].v) + (i + 1) * SumNat(items[i].v)])
+(* sharding by the item dicts of a case: a polynomial hash of their lengths and values *)
+RECURSIVE Mix(_, _)
+Mix(h, s)   == IF s = <<>> THEN h ELSE Mix((h * 31 + Head(s)) % 1000003, Tail(s))
+Hash(items) == Mix(17, FlatSeq([i \in DOMAIN items |-> <<100 + Len(items[i].v)>> \o items[i].v]))
 InShard(n)  == (n % NShards) = Shard
 
 ---------------------------------------------------------------------------
@@ -134,35 +143,37 @@ OutOf(c) == CASE c.kind = "single" -> OutSingle(c.s)
 (* the universes *)
 Set(c) == case = c /\ out = OutOf(c)
 
+(* every sweep over the given items; all = FALSE keeps only those whose enumeration does not raise *)
+SweepsOn(items, off, n, ix, all) ==
+    UNION {{Mk(items, dims, sstr, o) : sstr \in SstrOpts(dims), o \in OptTriples(items, ix)}
+           : dims \in {d \in DimsOpts(off, n) : all \/ Error(items, d) = ""}}
+
 InitSingle ==
     \E n \in MinKeys..MaxKeys : \E items \in ItemDicts(0, n) : InShard(Hash(items)) /\
-    \E dims \in DimsOpts(0, n) : \E sstr \in SstrOpts(dims) : \E o \in OptTriples(items, 1) :
-        Set([kind |-> "single", s |-> Mk(items, dims, sstr, o)])
+    \E s \in SweepsOn(items, 0, n, 1, TRUE) : Set([kind |-> "single", s |-> s])
 
-(* operands of products / sums: error-free sweeps; Sweep({}) appears only bare *)
-Operands(off, n, ix) ==
-    UNION {UNION {{Mk(items, dims, sstr, o) : sstr \in SstrOpts(dims), o \in OptTriples(items, ix)}
-                  : dims \in {d \in DimsOpts(off, n) : Error(items, d) = ""}}
-           : items \in ItemDicts(off, n)}
-(* key counts per operand; a Sweep({}) operand (don't-care for product) is combined with operands of <= 1 key *)
+(* operands of products / sums: error-free sweeps with pairwise disjoint keys.  Key counts per operand: *)
+(* a Sweep({}) operand (don't-care for product) is combined with operands of <= 1 key only.            *)
 Sizes == {t \in [1..NOps -> 0..MaxKeys] :
             /\ SumNat(t) <= MaxKeys /\ SumNat(t) >= MinKeys
             /\ (\E i \in 1..NOps : t[i] = 0) => \A i \in 1..NOps : t[i] <= 1}
 InitMulti ==
-    \E t \in Sizes : \E s1 \in Operands(0, t[1], 1) : InShard(Hash(s1.items) + Len(s1.ders) + Len(s1.excl)) /\
-    \E s2 \in Operands(t[1], t[2], 2) :
-       IF NOps = 2 THEN Set([kind |-> "multi", ss |-> <<s1, s2>>])
-       ELSE \E s3 \in Operands(t[1] + t[2], t[3], 3) : Set([kind |-> "multi", ss |-> <<s1, s2, s3>>])
+    \E t \in Sizes : \E i1 \in ItemDicts(0, t[1]) : \E i2 \in ItemDicts(t[1], t[2]) :
+       IF NOps = 2
+       THEN InShard(Hash(i1 \o i2)) /\
+            \E s1 \in SweepsOn(i1, 0, t[1], 1, FALSE) : \E s2 \in SweepsOn(i2, t[1], t[2], 2, FALSE) :
+               Set([kind |-> "multi", ss |-> <<s1, s2>>])
+       ELSE \E i3 \in ItemDicts(t[1] + t[2], t[3]) : InShard(Hash(i1 \o i2 \o i3)) /\
+            \E s1 \in SweepsOn(i1, 0, t[1], 1, FALSE) : \E s2 \in SweepsOn(i2, t[1], t[2], 2, FALSE) :
+            \E s3 \in SweepsOn(i3, t[1] + t[2], t[3], 3, FALSE) : Set([kind |-> "multi", ss |-> <<s1, s2, s3>>])
 
 InitFilter ==
     \E n \in MinKeys..MaxKeys : \E items \in ItemDicts(0, n) : InShard(Hash(items)) /\
-    \E dims \in DimsOpts(0, n) : Error(items, dims) = "" /\ \E sstr \in SstrOpts(dims) : \E o \in OptTriples(items, 1) :
-        LET s == Mk(items, dims, sstr, o) IN \E keys \in KeySeqs(s) : Set([kind |-> "filter", s |-> s, keys |-> keys])
+    \E s \in SweepsOn(items, 0, n, 1, FALSE) : \E keys \in KeySeqs(s) : Set([kind |-> "filter", s |-> s, keys |-> keys])
 
 InitCount ==
     \E n \in MinKeys..MaxKeys : \E items \in ItemDicts(0, n) : InShard(Hash(items)) /\
-    \E dims \in DimsOpts(0, n) : Error(items, dims) = "" /\ \E sstr \in SstrOpts(dims) : \E o \in OptTriples(items, 1) :
-        LET s == Mk(items, dims, sstr, o) IN
+    \E s \in SweepsOn(items, 0, n, 1, FALSE) :
         \E pl \in Pipelines : RootSet(pl.funcs, pl.target) \subseteq AllKeys(s) /\ Set([kind |-> "count", s |-> s, pl |-> pl])
 
 Init == CASE Mode = "single" -> InitSingle
@@ -180,6 +191,7 @@ InvOut         == out = OutOf(case)
 InvExactlyOnce == \A s \in SweepsOf(case) : LawExactlyOnce(s.items, s.dims)
 InvRowMajor    == \A s \in SweepsOf(case) : LawRowMajor(s.items, s.dims)
 InvFinish      == \A s \in SweepsOf(case) : LawFinish(s)
+InvOrderFree   == \A s \in SweepsOf(case) : LawOrderFree(s)
 InvLen         == \A s \in SweepsOf(case) : LawLen(s)
 InvProduct     == case.kind = "multi" => DisjointKeys(case.ss) /\ LawProduct(case.ss)
                                           /\ (~ProductDontCare(case.ss) => LawLen(Merge(case.ss)))
